@@ -156,6 +156,11 @@ def run(ctx):
                         B = [o]
                 rng.shuffle(A); rng.shuffle(B)
                 maxd = rng.choice([0, 1, 2, 3, ecc, ecc + 1])
+                # the bit-level model of the encoded action costs ~ (bits per state) per state and step: very wide codes of long states get shallower searches
+                bits = len(gd["central"]) * (graph.string_encoder.w if graph.string_encoder is not None else 1)
+                if maxd > max(3, 20000 // bits):
+                    maxd = max(3, 20000 // bits)
+                    ctx.count("between_depth_capped_for_wide_codes")
                 r, lit = observe_between(graph, A, B, maxd)
                 case = {"graph": gd, "config": cfgd, "starts": A, "dests": B, "max_diameter": maxd, "finder": "between"}
                 msg = check_between(gd, A, B, maxd, r)
